@@ -62,6 +62,13 @@ def configs(tier, seed):
                              order=list(order), **base))
         if p <= 2:
             cfgs.append(dict(name=f"arbitrary p={p} mults={pat}", kind="arbitrary", **base))
+        if 1 <= p <= 2 and len(pat) >= 3:
+            # an explicit tolerance is the one that decides every removal, whichever call carries it
+            for t, (tol, call) in enumerate([("1/100000000000000", "clean"), ("1/100000000000000", "knot_clean kw"), ("1/10000", "knot_clean pos"),
+                                             ("1/100000000000000", "degree_clean"), ("1/10000", "clean")]):
+                if tier == "quick" and (t + i + seed) % 2:
+                    continue
+                cfgs.append(dict(name=f"arbitrary p={p} mults={pat} tolerance={tol} via {call}", kind="arbitrary", tol=tol, call=call, **base))
     return cfgs
 
 
@@ -135,11 +142,30 @@ def body(env, cfg):
     # arbitrary curve: idempotence and tolerance
     P = _mixed_points(env, "P", kv.n, {0, min(1, kv.n - 1)}, p + 1)
     c = Curve(list(kv.U), P)
-    c.clean()
+    tol = F(cfg["tol"]) if cfg.get("tol") else None
+    call = cfg.get("call", "clean")
+    if tol is None:
+        c.clean()
+    elif call == "clean":
+        c.clean(tol)
+    elif call == "knot_clean kw":
+        c.knot_clean(tolerance=tol)
+    elif call == "knot_clean pos":
+        c.knot_clean(None, tol)
+    else:
+        c.degree_clean(tol)
     kv1 = kmode.lib_kv(c)
     Q = list(c.ctrlpoints)
+    # an upper bound on the number of accepted removals / reductions that lead to this final state; each of them stays
+    # within the tolerance in force, so (triangle inequality in L2) the total deviation stays within steps^2 times that
     steps = (p - c.degree) + sum(m for m in mults[1:-1]) - sum(kv1.mults[1:-1])
-    env.note(f"clean removed degree {p - c.degree}x, knots: {mults} -> {kv1.mults}")
+    env.note(f"{call} removed degree {p - c.degree}x, knots: {mults} -> {kv1.mults}")
+    if steps > 0:
+        bound = steps * steps * 2 * (tol if tol is not None else F(1e-9)) * max(1, vals[-1] - vals[0])
+        for k, e in enumerate(kmode.l2_sq(kv, P, kv1, Q)):
+            env.holds(f"<= {steps} accepted removals: integral of squared deviation <= steps^2 * 2*tolerance*max(1,L) (coord {k})", e <= bound)
+    if tol is not None:
+        return
     snap = kmode.snapshot(c)
     c.clean()
     kmode.unchanged(env, c, snap, "clean is idempotent")
